@@ -59,6 +59,13 @@ def run(ctx):
         frac0 = [numpy.array(a.xyz) for a in S]
         U0 = [numpy.array(a.U) for a in S]
         chain = [rand_lattice(rng) for _ in range(rng.randint(1, 4))]
+        if i % 3 == 0:
+            # same cell parameters in a different orientation, and an identical copy: nothing may be skipped
+            from diffpy.structure.lattice import Lattice
+            k = rng.randrange(len(chain) + 1)
+            prev = L0 if k == 0 else chain[k - 1]
+            chain.insert(k, Lattice(*prev.abcABG(), baserot=latlive.rand_rot(rng)))
+            chain.insert(k + 1, Lattice(chain[k]))
         cur = L0
         for Lk in chain + [L0]:
             if M:
